@@ -14,6 +14,7 @@ import (
 )
 
 type Clause struct {
+	Slow  bool // only checked in the thorough tier (takes longer than the quick per-obligation budget)
 	Label string
 	Src   string
 	Expr  ast.Expr
@@ -50,6 +51,7 @@ type FuncSpec struct {
 	Line       int
 	Used       bool
 	TouchesMaps bool
+	Tags       string // extra build tags of the configuration in which the body is verified
 }
 
 type Pred struct {
@@ -169,6 +171,11 @@ func (db *SpecDB) LoadFile(path string, pkg string) error {
 					for i+1 < len(ws) && strings.HasPrefix(ws[i+1], "C") {
 						i++
 						cur.Props = append(cur.Props, ws[i])
+					}
+				case "tags":
+					i++
+					if i < len(ws) {
+						cur.Tags = ws[i]
 					}
 				case "inline":
 					cur.Inline = true
@@ -360,6 +367,10 @@ func parseClause(s, pos string) (Clause, error) {
 	if strings.HasPrefix(s, "[") {
 		j := strings.Index(s, "]")
 		c.Label = s[1:j]
+		if strings.HasSuffix(c.Label, " slow") {
+			c.Label = strings.TrimSuffix(c.Label, " slow")
+			c.Slow = true
+		}
 		s = strings.TrimSpace(s[j+1:])
 	}
 	c.Src = s
